@@ -103,6 +103,10 @@ def classify_tsan(text):
     report is that blind spot iff one of its two accesses is an *atomic* access inside
     Atomicity::decrement/increment and the other is the free in Buf32::destroy / Drop. It is
     counted, never a verdict (Miri, which models fences, is the race oracle for this protocol).
+    The same blind spot has a second face: a thread reads the buffer (header or data) *before* its own
+    Release decrement; TSan then pairs that plain read with the last owner's free. Every "read vs the
+    free in Buf32::destroy under <Tendril as Drop>::drop" pair is classified as blind spot too (a real
+    read-after-free is ASan's and Miri's to report).
     Everything else (e.g. two plain accesses to a header or data byte) is a violation."""
     blind, real = [], []
     for b in tsan_blocks(text):
@@ -120,7 +124,25 @@ def classify_tsan(text):
         acc = ["\n".join(x) for x in acc]
         is_atomic = lambda x: "atomic" in x.splitlines()[0].lower() and ("Atomicity>::decrement" in x or "Atomicity>::increment" in x)
         is_free = lambda x: ("::destroy" in x or " free " in x or "dealloc" in x)
+
+        def is_read(x):
+            return re.match(r"^\s+(Previous )?(atomic )?read of size \d+ at ", x.splitlines()[0], re.I) is not None
+
+        def is_drop_free(x):
+            # the deallocation of the buffer by the last owner: free() reached from Buf32::destroy under
+            # <Tendril as Drop>::drop
+            return re.match(r"^\s+(Previous )?write of size \d+ at ", x.splitlines()[0], re.I) is not None and "Buf32" in x and "::destroy" in x and "as core::ops::drop::Drop>::drop" in x and ("free " in x or "dealloc" in x)
+
         if len(acc) >= 2 and ((is_atomic(acc[0]) and is_free(acc[1])) or (is_atomic(acc[1]) and is_free(acc[0]))):
+            blind.append(b)
+        elif len(acc) >= 2 and ((is_read(acc[0]) and is_drop_free(acc[1])) or (is_read(acc[1]) and is_drop_free(acc[0]))):
+            # Any READ of the buffer (header in assume_buf, data in owned_copy / memcpy, ...) by a thread
+            # that still held a reference is ordered before the last owner's free by that thread's own
+            # Release decrement and the freeing thread's Acquire fence - the edge TSan does not model. The
+            # pair "read vs the last-drop free" therefore carries no information under TSan; a read that
+            # really happens after the free is a use-after-free, which the ASan and Miri legs (same
+            # histories) report deterministically. Writes racing with the free, and every pair that does
+            # not involve the last-drop free, remain violations.
             blind.append(b)
         else:
             real.append(b)
@@ -185,6 +207,12 @@ def run_leg(root, env, pid, tool, k, seed, binary):
     elif tool == "tsan":
         blind, real = classify_tsan(err)
         res["tsan_fence_blind_spot_reports"] = len(blind)
+        try:
+            # keep the sanitizer's own output next to the leg's evidence (legs/out is scratch, not committed)
+            os.makedirs(os.path.join(root, "legs", "out"), exist_ok=True)
+            open(os.path.join(root, "legs", "out", f"{pid}.{name}.stderr"), "w").write(err)
+        except OSError:
+            pass
         if real:
             report = "\n".join(real)[-6000:]
         elif code not in (0, 1, 2, 66):
